@@ -543,7 +543,7 @@ def verify (S : Scheme) (root : Node) (sigpath : List Bytes) : Res Verified :=
                   if sig.ref.uri = [] then
                     if sig.ref.transforms.length ≠ 2 ∨ sig.ref.transforms[0]? ≠ some algEnveloped ∨
                         !((sig.ref.transforms[1]?).elim false isC14n) then .err "unsupported-transform" else
-                    if p = [] then .panic "nil-parent" else
+                    if p = [] then .err "no-enclosing-document" else   -- (was a nil dereference before the c11b repair)
                     let refStream := canon [] (removeAt p root)
                     if !S.b64ok sig.ref.digestValue ∨ !S.digestLen h sig.ref.digestValue then .err "invalid" else
                     if !S.digestOk h refStream sig.ref.digestValue then .err "digest" else
